@@ -37,6 +37,11 @@ int pmc_controlled(void);   // 1 while inside a controlled execution
 // Called (in the stuck state, on the thread holding the token) before the execution is ended with
 // outcome STUCK; may call pmc_fail with a more specific id, or pmc_note.
 void pmc_on_stuck(void (*cb)(void));
+// log of the operations on watched objects (for model-conformance projections); marks come from the harness
+void pmc_event_log(int on);
+void pmc_event_mark(int code);
+int pmc_event_count(void);
+int pmc_event_get(int i, int* tid, int* kind, int* changed, int* watch, unsigned* off, unsigned long long* val);    // kind: 1 load 2 store 3 rmw 4 cas, 0 mark (off = code)
 // Tunables (call before the body creates threads).
 // Make every pthread mutex lock / trylock / cond signal a focused point (for pmc-os harnesses).
 void pmc_focus_pthread(int on);
